@@ -281,7 +281,7 @@ fn consumption_skeleton(b: &syn::Block) -> String {
             syn::Expr::Break(_) => out.push_str("break;"),
             other => {
                 // consuming calls anywhere inside
-                let t = sm::tsc(other);
+                let t = sm::tsx(other);
                 for c in ["self.next_char()", "self.lex_comment()", "self.window.slide()"] {
                     for _ in 0..t.matches(c).count() {
                         out.push_str(c);
@@ -337,7 +337,7 @@ fn filter_dominance_named(cx: &mut Ctx, rule: &str) {
     let mut gated_filter: Option<(usize, String)> = None;
     let mut parse_at: Option<usize> = None;
     for (i, s) in f.block.stmts.iter().enumerate() {
-        let t = sm::tsc(s);
+        let t = sm::tsx(s);
         if let syn::Stmt::Local(l) = s {
             let gated = sm::cfg_features(&l.attrs).iter().any(|(n, p)| n == "full-lexer" && *p);
             if gated && t.contains("filter_ok(") {
@@ -362,7 +362,7 @@ fn filter_dominance_named(cx: &mut Ctx, rule: &str) {
         _ => cx.fail(rule, &format!("{}/trait-parse-tokens-unfiltered", rule), &p.loc(f), "parse_filtered_tokens has no #[cfg(feature = \"full-lexer\")] filter before TopParser::parse: Parse::parse_tokens (public) hands Comment/NonLogicalNewline tokens to the parser under full-lexer"),
     }
     // the filtered stream is what is parsed: chain(lxr) after filter
-    let t = sm::tsc(&f.block);
+    let t = sm::tsx(&f.block);
     if t.contains("letlexer=iter::once(Ok(marker_token)).chain(lxr);") {
         cx.ok(rule, "the (filtered) `lxr` is chained after the start marker and parsed");
     } else {
@@ -376,14 +376,14 @@ fn filter_dominance_named(cx: &mut Ctx, rule: &str) {
         }
         let Ok(src) = sm::load(&cx.repo, &rel) else { continue };
         for ff in src.all_free_fns() {
-            if sm::tsc(&ff.block).contains("TopParser::new()") {
+            if sm::tsx(&ff.block).contains("TopParser::new()") {
                 callers.push(format!("{}::{}", rel, ff.sig.ident));
             }
         }
         for i in src.impls() {
             for it in &i.items {
                 if let syn::ImplItem::Fn(m) = it {
-                    if sm::tsc(&m.block).contains("TopParser::new()") {
+                    if sm::tsx(&m.block).contains("TopParser::new()") {
                         callers.push(format!("{}::{}::{}", rel, sm::self_ty_name(i), m.sig.ident));
                     }
                 }
@@ -412,7 +412,7 @@ fn kind_set_agreement(cx: &mut Ctx) {
     cx.ok(rule, &format!("token.rs gates {:?}", gated));
     // every filter in parser.rs
     let mut n = 0;
-    let whole = sm::tsc(&p.file);
+    let whole = sm::tsx(&p.file);
     let mut rest = whole.as_str();
     while let Some(pos) = rest.find("filter_ok(|(tok,_)|!matches!(tok,") {
         let sub = &rest[pos..];
@@ -427,7 +427,7 @@ fn kind_set_agreement(cx: &mut Ctx) {
         cx.fail(rule, &format!("{}/no-filter", rule), &p.rel, "no full-lexer filter in parser.rs");
     }
     // soft keywords passthrough
-    let t = sm::tsc(&sk.file);
+    let t = sm::tsx(&sk.file);
     let marker = "ifmatches!(tok,";
     let mut found = false;
     for (i, _) in t.match_indices(marker) {
@@ -482,7 +482,7 @@ fn ranges_feature(cx: &mut Ctx) {
     }
     match g.method("EmptyRange", "new") {
         Some(m) => {
-            let t = sm::tsc(&m.sig.inputs);
+            let t = sm::tsx(&m.sig.inputs);
             if t.contains("_start") && t.contains("_end") {
                 cx.ok(rule, "EmptyRange::new ignores start and end");
             } else {
@@ -496,7 +496,7 @@ fn ranges_feature(cx: &mut Ctx) {
         Err(e) => return cx.anchor_missing(rule, &e),
     };
     match p.free_fns("optional_range").into_iter().next() {
-        Some(f) if sm::tsc(&f.block) == "{OptionalRange::<TextRange>::new(start,end)}" => cx.ok(rule, "optional_range(start, end) = OptionalRange::<TextRange>::new(start, end)"),
+        Some(f) if sm::tsx(&f.block) == "{OptionalRange::<TextRange>::new(start,end)}" => cx.ok(rule, "optional_range(start, end) = OptionalRange::<TextRange>::new(start, end)"),
         Some(f) => cx.fail(rule, &format!("{}/optional_range", rule), &p.loc(f), "optional_range is not a plain OptionalRange::new call"),
         None => cx.anchor_missing(rule, "optional_range"),
     }
@@ -549,7 +549,7 @@ fn bigint_alias(cx: &mut Ctx) {
                 let mut uses = vec![];
                 for it in &src.file.items {
                     if let syn::Item::Use(u) = it {
-                        let t = sm::tsc(&u.tree);
+                        let t = sm::tsx(&u.tree);
                         if t.contains("bigint") {
                             uses.push((sm::cfg_features(&u.attrs), t));
                         }
@@ -572,7 +572,7 @@ fn bigint_alias(cx: &mut Ctx) {
         }
         let Ok(src) = sm::load(&cx.repo, &rel) else { continue };
         n += 1;
-        let t = sm::tsc(&src.file);
+        let t = sm::tsx(&src.file);
         for b in ["malachite_bigint::", "num_bigint::", "externcratemalachite_bigint", "externcratenum_bigint"] {
             if t.contains(b) {
                 cx.fail(rule, &format!("{}/direct/{}", rule, rel), &rel, &format!("`{}` is named directly: integer values would depend on the backend", b));
@@ -594,7 +594,7 @@ fn unfinished_paths(cx: &mut Ctx) {
             continue;
         }
         let Ok(src) = sm::load(&cx.repo, &rel) else { continue };
-        let t = sm::tsc(&src.file);
+        let t = sm::tsx(&src.file);
         for m in ["todo", "unimplemented"] {
             let n = t.matches(&format!("{}!(", m)).count();
             if n > 0 {
